@@ -6,7 +6,7 @@
 (* summing to at least the sum of the largest steps on it), "unbroken"     *)
 (* (some cycle without any delay), "partial" (delays present but not       *)
 (* known to suffice).                                                      *)
-EXTENDS FinamBase
+EXTENDS FinamBase, TLC
 
 Ad(k, d, n, add, b) == [k |-> k, d |-> d, n |-> n, add |-> add, b |-> b]
 Pass == Ad("pass", 0, 0, 0, "scale")
@@ -90,6 +90,13 @@ FanOut(u) ==
            TimeC(s2, o2, FALSE, <<Lk(1, c2)>>)>>, ord, 6, "dag", "fanout") :
      sp \in Steps1, s1 \in StepSeqsS, s2 \in Steps1, o2 \in {0, 1},
      c1 \in ChainsUpTo1(AtomsS), c2 \in ChainsUpTo1(AtomsS), ord \in Perms3}
+(* the two readers hang on ONE shared adapter chain (harness: cfg.shared) *)
+FanOutShared(u) ==
+  {MkCfg(<<TimeC(sp, op, FALSE, <<>>), TimeC(s1, 0, ip, <<Lk(1, ch)>>),
+           TimeC(s2, o2, FALSE, <<Lk(1, ch)>>)>>, ord, 6, "dag", "fanoutshared") @@ [shared |-> TRUE] :
+     sp \in Steps1, op \in {0, 1}, s1 \in StepSeqsS, s2 \in Steps1, o2 \in {0, 1}, ip \in BOOLEAN,
+     ch \in {<<Pass>>, <<Fix(1)>>, <<Pass, Pass>>, <<Fix(2), Pass>>},
+     ord \in {<<1, 2, 3>>, <<2, 1, 3>>, <<3, 2, 1>>, <<2, 3, 1>>}}
 (* fan-out behind a pull-based component (its single input is one end      *)
 (* point of the producer's history)                                        *)
 PullFanOut(u) ==
@@ -238,10 +245,11 @@ CfgSpace(f) ==
     [] f = "ringbreak"  -> RingBreak(0)
     [] f = "wsum"       -> WSum(0)
     [] f = "pulltwice"  -> PullTwice(0)
+    [] f = "fanoutshared" -> FanOutShared(0)
     [] f = "ring2tail"  -> Ring2Tail(0)
 
 AllFamilies == {"pair", "pairL", "pairXL", "pair3", "chain3t", "chain3p", "fanin2", "fanin1",
                 "fanout", "pullfanout", "diamondt", "diamondp", "pullchain2", "ring2", "ring3",
-                "ring4", "pullring", "pullringtail", "ringbreak", "wsum", "pulltwice", "ring2tail"}
+                "ring4", "pullring", "pullringtail", "ringbreak", "wsum", "pulltwice", "ring2tail", "fanoutshared"}
 
 =============================================================================
